@@ -15,6 +15,7 @@ import (
 
 	"verif/ref"
 	"verif/vclock"
+	"verif/vsched"
 )
 
 // C07 — backends behave as a map with per-entry expiry (DESIGN §C07).
@@ -59,6 +60,20 @@ var c07Keys = [][]byte{
 	{0x00, 0xff},
 }
 
+var errWalkStop = errors.New("walk callback gives up")
+
+// missingKeyNear returns a key no check ever writes that lives in the same shard as k.
+func missingKeyNear(k []byte) []byte {
+	want := xxhash.Sum64(k) % uint64(cache.VerifShards)
+
+	for i := 0; ; i++ {
+		p := []byte(fmt.Sprintf("never-written-%d", i))
+		if xxhash.Sum64(p)%uint64(cache.VerifShards) == want {
+			return p
+		}
+	}
+}
+
 func c07Alphabet(keys [][]byte, loadStore bool) []bop {
 	var ops []bop
 
@@ -83,6 +98,7 @@ func c07Alphabet(keys [][]byte, loadStore bool) []bop {
 		bop{name: "ExpireAll", kind: "expireall"},
 		bop{name: "DeleteAll", kind: "deleteall"},
 		bop{name: "Advance(6m)", kind: "advance", adv: 6 * time.Minute},
+		bop{name: "Walk(callback fails at the first entry)", kind: "walkfail"},
 	)
 
 	for k := range keys {
@@ -195,7 +211,26 @@ func (s *bstate) compareRead(what string, v interface{}, err error, me ref.MEntr
 	return fmt.Sprintf("%s disagrees with model (%s): returned %s, model value %v, expiry %d", what, st, describe(), me.V, me.E), false
 }
 
-func (s *bstate) apply(o bop) (string, bool) {
+// apply runs one operation and the state comparison under the scheduler (one controlled thread), so that an
+// operation that never returns - a lock left held by an earlier call - is a detected deadlock, not a hang.
+func (s *bstate) apply(o bop) (msg string, ok bool) {
+	if vsched.Active() {
+		return s.applyRaw(o)
+	}
+
+	r := vsched.Replay(nil, func() { msg, ok = s.applyRaw(o) })
+
+	switch {
+	case r.Deadlock:
+		return fmt.Sprintf("%s never returns (deadlock): %v", o.name, r.Blocked), false
+	case r.Panic != nil:
+		return fmt.Sprintf("%s panicked: %v", o.name, r.Panic), false
+	}
+
+	return msg, ok
+}
+
+func (s *bstate) applyRaw(o bop) (string, bool) {
 	ctx := context.Background()
 	now := vclock.NowQuiet()
 	obs := "ok"
@@ -263,6 +298,29 @@ func (s *bstate) apply(o bop) (string, bool) {
 		}
 
 		obs = fmt.Sprint(existed)
+	case "walkfail":
+		// a caller's callback may give up: Walk hands the error back and leaves the cache usable
+		var at []byte
+
+		n, err := s.b.Walk(func(k []byte, v interface{}, _ time.Time) error {
+			at = append([]byte(nil), k...)
+			return errWalkStop
+		})
+		if len(s.m.M) > 0 && !errors.Is(err, errWalkStop) {
+			return fmt.Sprintf("Walk with a failing callback returned (%d, %v), want the callback's error", n, err), false
+		}
+
+		if len(s.m.M) == 0 && (err != nil || n != 0) {
+			return fmt.Sprintf("Walk of an empty cache returned (%d, %v)", n, err), false
+		}
+
+		// the part of the cache the walk was in when it stopped is still writable (the model state does not
+		// change, so this is probed here and not left to later operations)
+		if at != nil {
+			if err := s.b.Delete(ctx, missingKeyNear(at)); !errors.Is(err, cache.ErrNotFound) {
+				return fmt.Sprintf("Delete of a missing key after a Walk that stopped early returned %v, want ErrNotFound", err), false
+			}
+		}
 	case "expireall":
 		s.b.ExpireAll(ctx)
 		s.m.ExpireAll(now)
